@@ -201,14 +201,23 @@ PROPERTIES = {
                         "closed is absorbing over arbitrary call sequences", "RTCSessionDescription.__post_init__"],
     },
     "C15": {
-        "claim": "Proof that every integer bitrate in [0, 2^64) with up to 255 32-bit SSRCs is encodable by pack_remb_fci "
-                 "and decodes to the listed SSRCs exactly, with mantissa*2^exp <= bitrate. Reduced: rate.py (estimator, "
-                 "AIMD bounds, rate counter window) is float code that the engine does not model and is not decided.",
-        "note": "Only the 'REMB can encode it' conjunct of C15 is decided. The estimator bounds (1.5x+10k, 0.85x) and "
-                "no-raise over arrival histories are NOT decided by this check.",
+        "claim": "Proof (floats as reals) for AimdRateControl under a class invariant (current_bitrate >= 0, variance in "
+                 "[0.4, 2.5], near_max implies a recorded change time): update() never raises for any usage signal, any "
+                 "non-negative throughput and non-decreasing times; a reported estimate is the stored non-negative integer and is "
+                 "at most max(1.5 x throughput + 10000, previous estimate[, throughput]); on detected over-use it is at most "
+                 "0.85 x the measured throughput (rounded); _clamp_bitrate, the additive/multiplicative increases and the "
+                 "max-throughput estimator keep the invariant; plus REMB encodability: every integer bitrate in [0, 2^64) with up "
+                 "to 255 SSRCs is encoded by pack_remb_fci with mantissa*2^exp <= bitrate and decodes to the listed SSRCs. "
+                 "Reduced: the delay-based detector (InterArrival, OveruseEstimator, OveruseDetector), RateCounter's window and "
+                 "RemoteBitrateEstimator.add are not under contract.",
+        "note": "Floating point is treated as real arithmetic (A-REAL): rounding, overflow, inf/nan are outside the model. "
+                "pow() is an uninterpreted function with positivity/monotonicity axioms. F-18 (ZeroDivisionError at a zero "
+                "estimate) was found by the no-raise obligation of _near_max_rate_increase and fixed.",
         "design_ref": "DESIGN.md 4.15, 9",
-        "trusted_base": COMMON,
-        "not_decided": ["rate.py: RemoteBitrateEstimator, AimdRateControl (F-18), OveruseDetector, RateCounter"],
+        "trusted_base": COMMON + ["A-REAL: float arithmetic treated as exact real arithmetic"],
+        "assumptions": ["A-REAL"],
+        "not_decided": ["RateCounter: measurement over exactly the last 1000 ms", "RemoteBitrateEstimator.add / InterArrival / "
+                        "OveruseEstimator / OveruseDetector never raise", "SSRC list of the estimate", "IEEE-754 effects"],
     },
     "C16": {
         "claim": "Proof for H.264 FU-A fragmentation (H264Encoder._packetize_fu_a, any NAL unit longer than 1300 bytes): the "
